@@ -1,0 +1,92 @@
+// SPDX-FileCopyrightText: 2026 The Pion community <https://pion.ly>
+// SPDX-License-Identifier: MIT
+
+//go:build verif && !js
+
+package webrtc
+
+import (
+	"github.com/pion/logging"
+)
+
+// VerifDCIDs drives the data channel id bookkeeping of a bare SCTPTransport (verification hook, C18).
+type VerifDCIDs struct {
+	t *SCTPTransport
+}
+
+// NewVerifDCIDs creates an SCTPTransport holding only the fields generateAndSetDataChannelID and
+// onDataChannel touch. maxChannels is what MaxChannels() will report (the real constructor always
+// stores sctpMaxChannels).
+func NewVerifDCIDs(maxChannels uint16) *VerifDCIDs {
+	return &VerifDCIDs{t: &SCTPTransport{
+		dataChannelIDsUsed: make(map[uint16]struct{}),
+		maxChannels:        &maxChannels,
+		log:                logging.NewDefaultLoggerFactory().NewLogger("verif"),
+	}}
+}
+
+// Fill marks lo, lo+step, ... <= hi as used (test set-up; writes the map directly).
+func (v *VerifDCIDs) Fill(lo, hi, step uint16) {
+	verifFillIDs(v.t, lo, hi, step)
+}
+
+func verifFillIDs(t *SCTPTransport, lo, hi, step uint16) {
+	if step == 0 {
+		step = 1
+	}
+	t.lock.Lock()
+	defer t.lock.Unlock()
+	for i := uint32(lo); i <= uint32(hi); i += uint32(step) {
+		t.dataChannelIDsUsed[uint16(i)] = struct{}{} //nolint:gosec
+	}
+}
+
+// Generate calls generateAndSetDataChannelID; ok is false when it returned an error.
+func (v *VerifDCIDs) Generate(role DTLSRole) (id uint16, ok bool) {
+	var out *uint16
+	if err := v.t.generateAndSetDataChannelID(role, &out); err != nil || out == nil {
+		return 0, false
+	}
+
+	return *out, true
+}
+
+// Remote registers a channel accepted from the peer through onDataChannel.
+func (v *VerifDCIDs) Remote(id uint16) {
+	<-v.t.onDataChannel(&DataChannel{id: &id})
+}
+
+// Len is the number of ids marked used.
+func (v *VerifDCIDs) Len() int {
+	v.t.lock.RLock()
+	defer v.t.lock.RUnlock()
+
+	return len(v.t.dataChannelIDsUsed)
+}
+
+// VerifDataChannelRole reports what the id generator is given as the local DTLS role.
+func VerifDataChannelRole(pc *PeerConnection) DTLSRole {
+	return pc.sctpTransport.dtlsTransport.role()
+}
+
+// VerifDataChannels lists the transport's data channels (created and accepted) in registration order.
+func VerifDataChannels(pc *PeerConnection) []*DataChannel {
+	pc.sctpTransport.lock.RLock()
+	defer pc.sctpTransport.lock.RUnlock()
+
+	return append([]*DataChannel{}, pc.sctpTransport.dataChannels...)
+}
+
+// VerifFillDataChannelIDs marks lo, lo+step, ... <= hi as used on pc's SCTP transport.
+func VerifFillDataChannelIDs(pc *PeerConnection, lo, hi, step uint16) {
+	verifFillIDs(pc.sctpTransport, lo, hi, step)
+}
+
+// VerifDataChannelsOpened reads the transport's opened-channel counter; it becomes non-zero once Start's
+// open loop has finished with at least one channel opened (or a channel has been accepted).
+func VerifDataChannelsOpened(pc *PeerConnection) uint32 {
+	pc.sctpTransport.lock.RLock()
+	defer pc.sctpTransport.lock.RUnlock()
+
+	return pc.sctpTransport.dataChannelsOpened
+}
